@@ -17,7 +17,9 @@ RULE = ('generated modules in ctrl mode: nested block/loop/if/else with and with
         'return value or trap AND the ordered host-call trace of the reference interpreter. Non-trivial = the executed path '
         'contains a value-carrying branch across >=1 enclosing label or with extra operands below the value, a br_table whose '
         'index is out of range (default), a not-taken if without else, a loop back-edge, a local read before any write, a '
-        'return from nesting depth >= 2, or the function contains dead code (with nested blocks); distinct by (body, args).')
+        'return from nesting depth >= 2, or the function contains dead code (with nested blocks); distinct by (body, args). Switch-like functions '
+        '(maker c03_switch): K nested result-typed blocks, extra operands below the carried value, br_table with 0 ... several thousand entries '
+        'spread over the labels, called with indices at every boundary of the table (0, 255/256/257, N-1, N, N+1, 2^31, 2^32-2): every call is non-trivial.')
 ASSUME = ['reference interpreter calibrated against the spec-suite expectations in /repo/tests/gen (vf.spec)',
           'every generated module is accepted by the independent validator in vf/wasm.py before w2c2 sees it']
 
@@ -62,12 +64,84 @@ def make_ctrl(ch, params):
     return m, script, {'nontrivial_fn': nontrivial, 'ninst': 1, 'info': info}
 
 
+def nontrivial_switch(m, script, model, meta):
+    out = []
+    fex = [(n, i) for n, kd, i in m.exports if kd == 'func']
+    for op, lines in model.steps:
+        if op[0] != 'call':
+            continue
+        n = meta['info']['entries'][op[2]]
+        idx = op[3][0]
+        classes = {'br_table_value_extra_operands'}
+        if n > 256:
+            classes.add('br_table_entries>256')
+        if idx >= n:
+            classes.add('br_table_default_oob')
+        elif idx >= 256:
+            classes.add('br_table_index>=256')
+        out.append((f1.hx((n, fex[op[2]][0], tuple(op[3]))), classes))
+    return out
+
+
+@f1.maker('c03_switch')
+def make_switch(ch, params):
+    """switch-like functions: K nested result-typed blocks, in the innermost one 0-3 extra operands of mixed types, the carried value
+    and a br_table of N entries (N from 0 to several thousand: a dense C switch compiles to such tables) whose entries are spread
+    over the K labels; behind the end of label j a distinct constant is added, so the result tells which label was reached and
+    whether the carried value - not an operand below it - arrived.  Called with indices at every boundary of the table."""
+    from ..wasm import Module, Func
+    from .. import pools
+    m = Module()
+    entries = []
+    nf = 2 + ch.below(4)
+    for fi in range(nf):
+        t = ch.pick((I32, I64))
+        K = 1 + ch.below(6)
+        N = ch.pick((0, 1, 2, 7, 255, 256, 257, 258, 300, 511, 512, 513, 1000, 2049, 256 * (1 + ch.below(5)) + ch.below(3), ch.below(40)))
+        style = ch.below(3)
+        if style == 0:
+            tl = [ch.below(K) for _ in range(N)]
+        elif style == 1:
+            tl = [(i * 7 + i // 256) % K for i in range(N)]          # differs from chunk to chunk
+        else:
+            tl = [(K - 1) if i >= 256 else 0 for i in range(N)]
+        dflt = ch.below(K)
+        inner = []
+        for _ in range(ch.below(4)):
+            et = ch.pick((I32, I64, F32, F64))
+            inner.append(('%s.const' % et, pools.draw_const(ch, et) if et in (I32, I64) else (0x40490fdb if et == F32 else 0x400921fb54442d18)))
+        inner += [('local.get', 1), ('local.get', 0), ('br_table', tl, dflt)]
+        body = inner
+        for j in range(K):
+            body = [('block', t, body), ('%s.const' % t, (1000003 ** (j + 1)) % (1 << 31)), ('%s.add' % t,)]
+        if ch.below(2):
+            # the same switch inside a loop iteration / an if arm (label indices shift by one, the table is emitted at another depth)
+            body = [('local.get', 0), ('i32.const', -1), ('i32.ne',), ('if', t, body, [('local.get', 1)])]
+        m.funcs.append(Func(m.type_index((I32, t), (t,)), [], body))
+        m.exports.append((b'sw%d' % fi, 'func', fi))
+        entries.append(N)
+    script = e2e.default_setup(m, 1)
+    for fi in range(nf):
+        N = entries[fi]
+        t = m.func_type(fi)[0][1]
+        idxs = {0, 1, 2, 254, 255, 256, 257, 258, 511, 512, 513, max(N - 1, 0), N, N + 1, 0x7fffffff, 0x80000000, 0xfffffffe}
+        for _ in range(6):
+            idxs.add(ch.below(N + 1))
+            if N > 256:
+                idxs.add(256 + ch.below(N - 255))
+        for ix in sorted(idxs):
+            script.append(('call', 0, fi, [ix, pools.draw_const(ch, t)]))
+    return m, script, {'nontrivial_fn': nontrivial_switch, 'ninst': 1, 'info': {'entries': entries, 'stats': {}}}
+
+
 def plan(tier, seed):
     if tier == 'quick':
         ccs = ['gcc-O0', 'clang-O2', 'gcc-O2', 'clang-O0']
-        return [{'maker': 'c03_ctrl', 'ncases': 40, 'ccs': ccs, 'nfuncs': 20, 'nargs': 10, 'shrink_budget': 25} for _ in range(32)]
+        return [{'maker': 'c03_ctrl', 'ncases': 40, 'ccs': ccs, 'nfuncs': 20, 'nargs': 10, 'shrink_budget': 25} for _ in range(32)] + \
+            [{'maker': 'c03_switch', 'ncases': 12, 'ccs': ccs, 'shrink_budget': 15, 'reduce_budget': 5} for _ in range(8)]
     ccs = ['gcc-O0', 'clang-O2', 'gcc-O2', 'clang-O0', 'gcc-O3', 'clang-O3', 'gcc-O0-gnu89', 'clang-O2-gnu89']
-    return [{'maker': 'c03_ctrl', 'ncases': 400, 'ccs': ccs, 'nfuncs': 30, 'nargs': 16, 'shrink_budget': 40} for _ in range(64)]
+    return [{'maker': 'c03_ctrl', 'ncases': 400, 'ccs': ccs, 'nfuncs': 30, 'nargs': 16, 'shrink_budget': 40} for _ in range(64)] + \
+        [{'maker': 'c03_switch', 'ncases': 150, 'ccs': ccs, 'shrink_budget': 20, 'reduce_budget': 5} for _ in range(16)]
 
 
 def replay(rp):
